@@ -85,13 +85,15 @@ def _havoc_like(v, tag, facts, old=None, fresh_obj=True):
 class _Match:
     """EQ(S', S_h): equalities between the arbitrary post-state and the handler's, turned into a substitution for the handler's fresh constants."""
 
-    def __init__(self, is_fresh):
-        self.sub, self.conj, self.is_fresh = {}, [], is_fresh
+    def __init__(self, is_fresh, ghosts=()):
+        self.sub, self.conj, self.is_fresh, self.ghosts = {}, [], is_fresh, set(ghosts)
 
     def term(self, mine, theirs):
         # mine: term of the handler's state, theirs: term of the arbitrary state
         if z3.is_const(mine) and mine.decl().kind() == z3.Z3_OP_UNINTERPRETED and self.is_fresh(mine) and mine.decl().name() not in self.sub:
             self.sub[mine.decl().name()] = (mine, theirs)
+        elif z3.is_app(mine) and mine.num_args() > 0 and mine.decl().name() in self.ghosts and mine.sexpr() not in self.sub:
+            self.sub[mine.sexpr()] = (mine, theirs)
         else:
             self.conj.append(mine == theirs)
 
@@ -128,7 +130,27 @@ def _subst(f, sub):
     return z3.substitute(f, *[(m, t) for m, t in sub.values()])
 
 
-def conform(label, handler, contract, module, qualname, variant=None, nargs=None, kw=None, timeout_ms=10000):
+def _ghost_apps(f, ghosts, acc):
+    seen, todo = set(), [f]
+    while todo:
+        t = todo.pop()
+        if t.get_id() in seen:
+            continue
+        seen.add(t.get_id())
+        if z3.is_quantifier(t):
+            todo.append(t.body())
+        elif z3.is_app(t):
+            if t.num_args() > 0 and t.decl().name() in ghosts:
+                acc[t.sexpr()] = t
+            todo.extend(t.children())
+    return acc
+
+
+def conform(label, handler, contract, module, qualname, variant=None, nargs=None, kw=None, timeout_ms=10000, ghosts=()):
+    """ghosts: names of uninterpreted GHOST functions the handler uses to name its result (`SPAN_OF(x)` = "the span the call returned for x"): an
+    application of one of them stands for a value the handler does not fix, exactly like a fresh constant (functional consistency - the same
+    argument gives the same value - is the determinism of a pure callee on an immutable receiver)."""
+    ghosts = set(ghosts)
     fnid = "%s.%s%s" % (module, qualname, getattr(contract, "tag", "") or "")
     pre_id = "%s:callsite-contract[%s]" % (fnid, label)
     out = []
@@ -298,7 +320,7 @@ def conform(label, handler, contract, module, qualname, variant=None, nargs=None
     for choice in itertools.product(*choices) if choices else [()]:
         env_, res, facts = arbitrary(choice)
         H = entry_req + facts + ensures_on(env_, entry_req) + [g for _n, _h, g, _l in O_h]      # the caller has discharged the handler's obligations
-        m = _Match(is_fresh)
+        m = _Match(is_fresh, ghosts)
         for p, o, _f in roots:
             m.value(o, res if p == "result" else env_[p], p)
         if ret is not None and not _is_mut(ret):
@@ -308,7 +330,15 @@ def conform(label, handler, contract, module, qualname, variant=None, nargs=None
             if z3.is_not(f) and z3.is_const(f.arg(0)) and is_fresh(f.arg(0)) and f.arg(0).decl().name() not in sub:
                 sub[f.arg(0).decl().name()] = (f.arg(0), z3.BoolVal(False))
         parts = [_subst(c, sub) for c in m.conj] + [_subst(f, sub) for f in A_h]
-        left = [c for c in _consts(z3.And(*parts), {}).values() if is_fresh(c)] if parts else []
+        extra = []
+        if ghosts and parts:
+            # remaining applications of ghost functions: values the handler leaves open -> existential constants
+            apps = _ghost_apps(z3.And(*parts), ghosts, {})
+            if apps:
+                gs = {k: (t, E.fresh("ghost_value", t.sort())) for k, t in apps.items()}
+                parts = [_subst(c, gs) for c in parts]
+                extra = [c for _t, c in gs.values()]
+        left = ([c for c in _consts(z3.And(*parts), {}).values() if is_fresh(c)] if parts else []) + extra
         tagc = "" if not choice else "[" + ",".join("%s=%s" % (k.strip("_").split("__")[-1], h) for (p, k), h in zip(obj_fields, choice)) + "]"
         what = "every post-state the contract allows is one the handler allows (%d assumed fact(s), %d field equalities, %d existential)" % (
             len(A_h), len(m.conj) + len(m.sub), len(left))
